@@ -14,6 +14,7 @@ from pyab_experiment.data_structures.syntax_tree import (
 )
 from pyab_experiment.language.lexer import ExperimentLexer
 from pyab_experiment.sly import Parser
+from pyab_experiment.sly.yacc import YaccError
 
 
 class ExperimentParser(Parser):
@@ -34,6 +35,17 @@ class ExperimentParser(Parser):
         ("left", KW_AND),
         ("left", KW_NOT),
     )
+
+    def error(self, token):
+        """A syntax error makes the whole text invalid. The default sly handler
+        only prints a message and then resynchronises, which silently compiles
+        whatever valid definition can be found in the remaining tokens."""
+        if token:
+            raise YaccError(
+                "Syntax error at line %s, token=%s"
+                % (getattr(token, "lineno", 0), token.type)
+            )
+        raise YaccError("Parse error in input. EOF")
 
     @_("header_id LBRACE opt_header_salt opt_splitter conditional RBRACE")
     def header(self, p):
